@@ -22,6 +22,8 @@ EXTENDS Aggs, AggTable, Factorize, TLC
 CONSTANTS MaxLen, MinLen, NLabels, SplitEvery, Names, Wide,
           Reindexes,     \* subset of {"none", "true", "false"}: the reindex= argument
           ByDasks,       \* subset of BOOLEAN: labels given as a chunked array
+          ArrDasks,      \* subset of BOOLEAN: the array is chunked (TRUE) or in memory (FALSE: the eager path)
+          Engines,       \* subset of {"none", "numpy", "flox", "numbagg"}: the engine= argument
           NLabels2       \* 0: one grouper only; > 0: calls with a SECOND grouper over labels 0..NLabels2-1 are explored too
 
 C == INSTANCE Cohorts
@@ -45,18 +47,40 @@ Grow == /\ phase = "input" /\ Len(vals) < MaxLen
              vals' = Append(vals, v) /\ labs' = Append(labs, l) /\ labs2' = Append(labs2, l2) /\ cuts' = Append(cuts, cut)
         /\ UNCHANGED <<cfg, phase, fact, plan, byCode, result>>
 
-Call == /\ phase = "input" /\ Len(vals) >= MinLen /\ vals # <<>>
-        /\ \E r \in Rows, m \in {"none", "map-reduce", "cohorts", "blockwise"}, e \in BOOLEAN, s \in BOOLEAN, ri \in Reindexes, bd \in ByDasks,
-              two \in (IF NLabels2 = 0 THEN {FALSE} ELSE BOOLEAN) :
-             \* explicit blockwise with chunked labels is known findings F02/F06 (escapes with internal errors): left out
-             /\ ~(bd /\ m = "blockwise")
-             \* two groupers: the output is the full grid of label pairs, so a fill is part of the contract; numpy labels only
-             /\ (two => AggTable[r].userFill.some /\ ~bd)
-             /\ cfg' = [row |-> r, method |-> m, hasExpected |-> e, sort |-> s, reindex |-> ri, byDask |-> bd, two |-> two]
-        /\ phase' = "called"
-        /\ UNCHANGED <<vals, labs, labs2, cuts, fact, plan, byCode, result>>
+\* the call's configuration is chosen in three steps (a product of independent choices made as a sum: keeps the
+\* branching of any single step small for TLC's simulation mode; the reachable configurations are the same)
+CallA == /\ phase = "input" /\ Len(vals) >= MinLen /\ vals # <<>>
+         /\ \E r \in Rows, two \in (IF NLabels2 = 0 THEN {FALSE} ELSE BOOLEAN), en \in Engines :
+              \* two groupers: the output is the full grid of label pairs, so a fill is part of the contract
+              /\ (two => AggTable[r].userFill.some)
+              /\ cfg' = [row |-> r, two |-> two, engine |-> en]
+         /\ phase' = "callA"
+         /\ UNCHANGED <<vals, labs, labs2, cuts, fact, plan, byCode, result>>
+CallB == /\ phase = "callA"
+         /\ \E m \in {"none", "map-reduce", "cohorts", "blockwise"}, ri \in Reindexes, bd \in ByDasks, ad \in ArrDasks :
+              \* explicit blockwise with chunked labels is known findings F02/F06 (escapes with internal errors): left out
+              /\ ~(bd /\ m = "blockwise")
+              \* two groupers: numpy labels only
+              /\ (cfg.two => ~bd)
+              \* in-memory array: in-memory labels, and the strategy arguments play no role (kept at their defaults)
+              /\ (~ad => ~bd /\ m = "none" /\ ri = "none")
+              /\ cfg' = [method |-> m, reindex |-> ri, byDask |-> bd, arrDask |-> ad] @@ cfg
+         /\ phase' = "callB"
+         /\ UNCHANGED <<vals, labs, labs2, cuts, fact, plan, byCode, result>>
+CallC == /\ phase = "callB"
+         /\ \E e \in BOOLEAN, s \in BOOLEAN : cfg' = [hasExpected |-> e, sort |-> s] @@ cfg
+         /\ phase' = "called"
+         /\ UNCHANGED <<vals, labs, labs2, cuts, fact, plan, byCode, result>>
+Call == CallA \/ CallB \/ CallC
 
 agg == AggTable[cfg.row]
+
+\* the part of the abstract configuration that is known before factorization
+EarlyCfg ==
+  [fclass |-> IF agg.rtype = "argreduce" THEN "arg" ELSE IF agg.name \in {"nanfirst", "nanlast"} THEN "nanfl" ELSE "plain",
+   engine |-> cfg.engine, method |-> cfg.method, reindex |-> cfg.reindex, arrDask |-> cfg.arrDask, byDask |-> cfg.byDask,
+   expected |-> cfg.hasExpected, dtypeArg |-> FALSE, floatData |-> TRUE, allAxes |-> TRUE, byNdim |-> 1,
+   pref |-> "map-reduce", hasCohorts |-> FALSE, hasCohortsM |-> FALSE, oneBlock |-> FALSE]
 
 \* ---------------------------------------------------------------- Factorize
 FactorizeStep ==
@@ -72,7 +96,8 @@ FactorizeStep ==
          emptyGrid == cfg.two /\ (Len(f1.groups) = 0 \/ n2 = 0)
      IN
      /\ phase' = IF emptyGrid THEN "refused" ELSE "factorized"
-     /\ plan' = IF emptyGrid THEN P!Refuse("ValueError") ELSE plan
+     \* (the engine / method / reindex refusals are decided before the labels are looked at)
+     /\ plan' = IF emptyGrid THEN P!Refuse(IF P!EarlyRefusal(EarlyCfg) # "none" THEN P!EarlyRefusal(EarlyCfg) ELSE "ValueError") ELSE plan
      /\ fact' = IF ~cfg.two \/ emptyGrid THEN f1
                 ELSE \* _factorize_multiple + _ravel_factorized: row-major code of the pair, -1 when either label is dropped;
                      \* output slots = the full grid (group token of a pair = l1 * NLabels2 + l2)
@@ -103,7 +128,7 @@ Confined == \A g \in 0..(NG - 1) : Cardinality({b \in 1..NB : g \in Incidence[b]
 Planner == C!FindGroupCohorts(Incidence, NG, cfg.method = "cohorts", Single)
 AbstractCfg ==
   [fclass |-> IF agg.rtype = "argreduce" THEN "arg" ELSE IF agg.name \in {"nanfirst", "nanlast"} THEN "nanfl" ELSE "plain",
-   engine |-> "none", method |-> cfg.method, reindex |-> cfg.reindex, arrDask |-> TRUE, byDask |-> cfg.byDask,
+   engine |-> cfg.engine, method |-> cfg.method, reindex |-> cfg.reindex, arrDask |-> cfg.arrDask, byDask |-> cfg.byDask,
    expected |-> cfg.hasExpected, dtypeArg |-> FALSE, floatData |-> TRUE, allAxes |-> TRUE, byNdim |-> 1,
    pref |-> Planner.method, hasCohorts |-> Planner.cohorts # {}, hasCohortsM |-> Planner.cohorts # {}, oneBlock |-> Len(Ends0) = 1]   \* judged before the rechunk
 
@@ -178,9 +203,19 @@ NeedsFill == \E g \in 0..(NG - 1) : g \notin Covered
 FillRefusal == /\ ~agg.userFill.some /\ NeedsFill
                /\ (plan.method \in {"cohorts", "blockwise"} \/ ~(plan.rb /\ SimpleMR))
 
+\* the eager path: _reduce_blockwise on the whole array, reindexed to the output slots
+EagerByCode ==
+  LET res == BlockwiseSem(agg, vals, fact.codes, [sort |-> cfg.sort, start |-> 0]) IN [k \in 1..NG |-> At(res, k - 1)]
+
+\* _choose_engine on the concrete labels (numpy labels: _issorted on the factorized codes)
+CodesSorted == \A i \in 1..(Len(fact.codes) - 1) : fact.codes[i] <= fact.codes[i + 1]
+EngineChosen == P!ChooseEngine(AbstractCfg, agg.nanskip, CodesSorted, FALSE)
+
 Execute ==
   /\ phase = "planned"
-  /\ IF FillRefusal
+  /\ IF plan.method = "eager"
+     THEN /\ byCode' = EagerByCode /\ phase' = "executed" /\ UNCHANGED plan
+     ELSE IF FillRefusal
      THEN /\ plan' = P!Refuse("ValueError") /\ phase' = "refused" /\ UNCHANGED byCode
      ELSE /\ byCode' = CASE plan.method = "map-reduce" -> MapReduceByCode
                          [] plan.method = "cohorts"    -> CohortsByCode
@@ -221,7 +256,7 @@ Inv_AutoPlanSound == (phase \in {"planned", "executed", "done"} /\ cfg.method = 
 
 \* spec -> code: every finished behaviour is printed and replayed into the real groupby_reduce (harness/composecase.py)
 Emit == (phase \in {"done", "refused"} /\ InScope) =>
-          PrintT(<<"BEH", vals, labs, labs2, cuts, cfg, fact.groups, plan, result, Planner.method, Sizes, fact.codes>>)
+          PrintT(<<"BEH", vals, labs, labs2, cuts, cfg, fact.groups, plan, result, Planner.method, Sizes, fact.codes, EngineChosen>>)
 
 \* vacuity witnesses (each must be VIOLATED by some behaviour)
 W_Cohorts == ~(phase = "done" /\ plan.method = "cohorts")
